@@ -117,13 +117,13 @@ def build(tier):
         Target('bundle_moveto', [mv(), a4()], H, replace=['bundle_append4']),
         Target('bundle_ctor', [ctor, a4()], H, replace=['bundle_append4']),
         Target('bundle_econverged', [econv, size(), cap()], H, replace=acc), Target('bundle_sconverged', [sconv, size(), cap()], H, replace=acc),
-    ] + protocol.targets(['NV_C03']) + [protocol.ellipsoid()]
+    ] + protocol.targets(['NV_C03']) + [protocol.ellipsoid(), protocol.state_ctor()]
     return {
         'targets': targets, 'vcs': [], 'bounded': [lemma.target()],
         'decided': ['bundle_t representation invariant 0 < m_size < capacity() after append / moveto (and from m_size >= 0, as the constructor uses append); every index written into m_bundleE / m_bundleS / m_alphas lies in [0, capacity()); delete_largest reads m_alphas inside [0, size()) and a full bundle loses at least `count` entries',
                     'bundle_t constructor: capacity() = max_size + 1 >= 3 slots in all three buffers (the shape NV_BUNDLE_SHAPE every other contract assumes), centre copied from the state, invariant established by the first append',
                     'econverged / sconverged: smeared_e <= epsilon * sqrt(dimension of x), |smeared_s|_2 <= epsilon * sqrt(dimension of x) (the formula of the property; sqrt uninterpreted)',
-                    'csearch_t::search: the returned (y, gy, fy) is one evaluation; converged => both stopping tests were evaluated true with the caller\'s epsilon on the bundle version returned by its last solve; non-finite fy => failed; a status that makes a claim about the returned point was decided in this call after the last evaluation (pins the repair 778c4d3); the proximity centre is not moved; at most one evaluation beyond max_evals',
+                    'csearch_t::search: the returned (y, gy, fy) is one evaluation; converged => both stopping tests were evaluated true with the caller\'s epsilon on the bundle version returned by its last solve; non-finite fy => failed; a status that makes a claim about the returned point was decided in this call after the last evaluation (pins the repair 778c4d3); descent_step / cutting_plane_step / null_step are reported only for a trial that passed the corresponding tests of this call (sufficient descent f(centre) - fy >= m1*delta; gy.(y-x) >= -m2*delta; sconverged or s.(y-x) >= -m4*delta; e <= m3*delta) on the quantities computed for that trial; the proximity centre is not moved; at most one evaluation beyond max_evals',
                     'rqb / fpba1,2 do_minimize: converged => the curve search decided converged for the final bundle; rqb: the returned state is the bundle\'s proximity centre; fpba: the returned (best) value is not above a finite centre value',
                     'ellipsoid: converged => g\'Hg < machine epsilon was computed after the last evaluation, or sqrt(g\'Hg) < epsilon was evaluated after the last evaluation on that iteration\'s g\'Hg'],
         'not_decided': ['the certificate f(x)-f* <= 2 eps sqrt(n)(1+|x-x*|): follows from the cutting-plane model being a lower bound, a convex-analysis argument about values', 'ellipsoid always converges',
@@ -143,6 +143,17 @@ def replay(rp):
     import subprocess
     import replaylib
     out = {'reproduced': False, 'runs': []}
+    if any(k in rp.get('target', '') for k in ('csearch', 'rqb')):
+        # step-status protocol of the curve search: RQB acting on a status that was not decided for the returned trial returns a
+        # value above the starting value on convex functions with a tiny budget
+        exe = replaylib.build_with_library('replay/C02_rqb_replay.cpp', 'C02_rqb_replay')
+        rc, so, se = replaylib.run_driver(exe, [10, 40], timeout=600)
+        out['runs'].append({'exit': rc, 'output': so.strip()[-3000:]})
+        out['reproduced'] = rc == 1
+        return out
+    if not any(k in rp.get('target', '') for k in ('bundle', 'lemma')):
+        out['note'] = 'no native scenario for this target: the replay file carries the verifier output only'
+        return out
     exe = replaylib.build_with_library('replay/C03_replay.cpp', 'C03_replay')
     for msize in (2, 3):
         r = subprocess.run(['valgrind', '-q', '--error-exitcode=9', exe, str(msize)], capture_output=True, text=True, timeout=1200)
